@@ -850,15 +850,32 @@ impl AppState {
             }
         };
         if let Err(err) = self.persist_api_keys().await {
-            let mut keys = self
-                .inner
-                .api_keys
-                .write()
-                .unwrap_or_else(std::sync::PoisonError::into_inner);
-            match previous {
-                Some(previous) => keys.insert(name.to_string(), previous),
-                None => keys.remove(name),
+            let restored = {
+                let mut keys = self
+                    .inner
+                    .api_keys
+                    .write()
+                    .unwrap_or_else(std::sync::PoisonError::into_inner);
+                match previous {
+                    Some(previous) => keys.insert(name.to_string(), previous),
+                    None => keys.remove(name),
+                };
+                keys.clone()
             };
+            // `save_extension_from` stages the value in the primary database's
+            // in-memory metadata before writing it. After a failed write the
+            // rejected map is still staged there, and the next metadata flush
+            // (a registry update, the auto-flush, shutdown) would persist it:
+            // the binding rolled back here would come alive on the next
+            // restart. Stage the restored map instead.
+            let primary = {
+                let dbs = self.inner.databases.read().await;
+                dbs.get(&self.inner.options.primary_db)
+                    .map(|entry| entry.db.clone())
+            };
+            if let Some(db) = primary {
+                db.set_extension_from(DB_API_KEYS_KEY.to_string(), &restored);
+            }
             return Err(err);
         }
         Ok(())
